@@ -216,7 +216,7 @@ def gen_g(r, name):
     elif t == "other_types":
         # "every supported parameter type": fixed-point, characters, boolean matrices, nested tuples, 8-bit integers.
         # Only comparisons / boolean structure, so that plain Python is the meaning whatever the widths
-        form = r.randrange(9)
+        form = r.randrange(11)
         cmp_ = r.choice([">", "<", "==", "!=", ">=", "<="])
         mix = r.choice(["({e}) ^ a", "({e}) and a", "({e}) or a", "a if ({e}) else (not a)"])
         if form in (0, 1):
@@ -248,6 +248,14 @@ def gen_g(r, name):
         elif form == 7:
             params, args, ret = [("c", "Qint[8]")], [("a", "bool"), ("x", "Qint[2]")], "bool"
             src = f"def {name}(c: Parameter[Qint[8]], x: Qint[2], a: bool) -> bool:\n    return {mix.format(e=f'c {cmp_} {r.randrange(256)}')} or (x == 3)\n"
+        elif form in (9, 10):
+            # a matrix parameter -- square or not -- read at two RUN-TIME indices (rows the Python function
+            # cannot index are outside its domain and are not compared)
+            rows, cols = r.choice([(2, 2), (2, 3), (2, 4), (3, 2), (3, 3), (3, 4)])
+            ct = r.choice(["bool", "Qint[2]"])
+            params, args, ret = [("c", f"Qmatrix[{ct}, {rows}, {cols}]")], [("i", "Qint[2]"), ("j", "Qint[2]")], ct
+            body = "    return c[i][j]\n" if form == 9 else "    r = i & 1\n    return c[r][j]\n"
+            src = f"def {name}(c: Parameter[Qmatrix[{ct}, {rows}, {cols}]], i: Qint[2], j: Qint[2]) -> {ct}:\n{body}"
         else:
             params, args, ret = [("c", "Qchar")], [("a", "Qchar")], "bool"
             src = f"def {name}(c: Parameter[Qchar], a: Qchar) -> bool:\n    return a {r.choice(['==', '!='])} c\n"
@@ -305,8 +313,9 @@ def gen_g(r, name):
         op_ = r.choice(["^=", "&=", "|="])
         src = f"def {name}(x: Qint[2], p: Parameter[Qint[2]], a: bool) -> Qint[2]:\n    s = x\n    if a:\n        s {op_} p\n    return s\n"
     elif t == "lookup":
-        params, args, ret = [("p", "Qlist[Qint[2], 4]")], [("x", "Qint[2]")], "Qint[2]"
-        src = f"def {name}(p: Parameter[Qlist[Qint[2], 4]], x: Qint[2]) -> Qint[2]:\n    return p[x]\n"
+        n = r.choice([4, 4, 3, 5, 2])
+        params, args, ret = [("p", f"Qlist[Qint[2], {n}]")], [("x", "Qint[2]")], "Qint[2]"
+        src = f"def {name}(p: Parameter[Qlist[Qint[2], {n}]], x: Qint[2]) -> Qint[2]:\n    return p[x]\n"
     elif t == "tuple":
         params, args, ret = [("p", "Tuple[bool, Qint[2]]")], [("x", "Qint[2]")], "Qint[2]"
         src = f"def {name}(x: Qint[2], p: Parameter[Tuple[bool, Qint[2]]]) -> Qint[2]:\n    return (x ^ p[1]) if p[0] else x\n"
@@ -1006,7 +1015,12 @@ def run_segment(plan, ctx, detail=False, table=None):
                                 for ins, got in dec:
                                     kw = dict(ins)
                                     kw.update(pv)
-                                    if crop(pyf(**kw), ua["ret"]) != got:
+                                    try:
+                                        want_ = crop(pyf(**kw), ua["ret"])
+                                    except IndexError:
+                                        probe("input_outside_the_python_function's_domain_(row_skipped)")
+                                        continue  # the Python function has no value here: nothing to agree with
+                                    if want_ != got:
                                         b1 = False
                                         rec["b1_at"] = canon(ins)
                                         break
@@ -1024,7 +1038,11 @@ def run_segment(plan, ctx, detail=False, table=None):
                                 for ins, _got in dec:
                                     kw = dict(ins)
                                     kw.update(pv)
-                                    if crop(cf(**ins), ua["ret"]) != crop(pyf(**kw), ua["ret"]):
+                                    try:
+                                        want_ = crop(pyf(**kw), ua["ret"])
+                                    except IndexError:
+                                        continue
+                                    if crop(cf(**ins), ua["ret"]) != want_:
                                         b5 = "value at " + canon(ins)
                                         break
                             except Exception as e:
